@@ -165,6 +165,13 @@ pub fn explore_deviations<F: FnMut(&mut Chooser)>(mut f: F, bound: usize, stats:
     rec(&mut f, vec![], 0, bound, stats, true);
 }
 
+/// Size of the full product estimated along the default path (product of arities).
+pub fn estimate_product<F: FnMut(&mut Chooser)>(mut f: F) -> f64 {
+    let mut ch = Chooser::new(&[]);
+    f(&mut ch);
+    ch.trace.iter().map(|x| x.1 as f64).product()
+}
+
 /// Run one fixed choice vector (replay).
 pub fn run_one<F: FnMut(&mut Chooser)>(mut f: F, choices: &[u32]) {
     let mut ch = Chooser::new(choices);
